@@ -34,6 +34,7 @@ IMPORTS = ("From PM.theories Require Import Base Expr DevInfo CorrDevInfo.\n"
 
 F_245 = "F-C20-245-byte-object"
 F_CODE0 = "F-C20-read-code-0"
+F_TEXT = "F-C20-non-ascii-text"
 
 VALID_IDS = list(range(0, 7)) + list(range(0x80, 0x100))
 
@@ -255,9 +256,52 @@ def suites(tier):
     return [suite_chain(tier), suite_starts(tier)]
 
 
+# ----------------------------------------------------------------------------- python-side check: text values
+
+def text_exchange(value, code=1, oid=0):
+    """identity object 0 := a str value; one exchange -> (pdu length, decoded value or None)"""
+    from pymodbus.factory import ServerDecoder, ClientDecoder
+    mcb = reset_identity()
+    mcb.Identity[oid] = value
+    try:
+        rsp = ServerDecoder().decode(bytes([0x2b, 0x0e, code, oid])).execute(None)
+        pdu = bytes([rsp.function_code]) + rsp.encode()
+        try:
+            got = ClientDecoder().decode(pdu).information.get(oid)
+        except Exception:  # noqa: BLE001
+            got = None
+    finally:
+        reset_identity()
+    return len(pdu), got
+
+
+def extra_checks(tier):
+    """str-valued identity objects (the model's values are byte strings): the space accounting uses
+    len(str), the wire carries str.encode().  ASCII text must behave like bytes; non-ASCII text is
+    the region of finding F-C20-non-ascii-text."""
+    failures, keys, samples, n = [], [], [], 0
+    for ch, label in (("A", "ascii"), ("\u00e9", "non-ascii")):
+        for length in (1, 2, 100, 122, 123, 124, 200, 243, 244):
+            for code in (1, 4):
+                value = ch * length
+                plen, got = text_exchange(value, code)
+                n += 1
+                ok = plen <= 253 and got == value.encode()
+                d = {"text": label, "chars": length, "code": code, "pdu_len": plen,
+                     "decoded_len": None if got is None else (len(got) if not isinstance(got, list) else -1)}
+                keys.append((label, length, code))
+                if len(samples) < 2:
+                    samples.append(d)
+                if not ok:
+                    failures.append(d)
+    return {"text_values": {"evaluations": n, "failures": failures, "broken": [], "samples": samples, "keys": keys}}
+
+
 # ----------------------------------------------------------------------------- findings / replay
 
 def classify(suite, desc):
+    if suite == "text_values":
+        return F_TEXT if desc.get("text") == "non-ascii" else None
     code, oid = desc.get("code"), desc.get("oid")
     if code == 0 and 0 <= oid <= 255:
         return F_CODE0
@@ -283,6 +327,9 @@ def replay_finding(f):
         steps, end = follow(w["code"], w["oid"], w.get("limit", 6))
         reset_identity()
         return end == "ELimit"
+    if f["id"] == F_TEXT:
+        plen, got = text_exchange("\u00e9" * w["chars"], w.get("code", 1))
+        return not (plen <= 253 and got == ("\u00e9" * w["chars"]).encode())
     if f["id"] == F_CODE0:
         install_identity([(0, b"V")])
         o = exchange(0, w.get("oid", 0), False)
